@@ -534,9 +534,9 @@ class Engine:
         outs = self.eval_many(subs, st, fid)
 
         def mk(s, vs):
-            # hook "fstring"(eng, st, node, values of the formatted sub-expressions in order) may give the string a meaning
-            # (e.g. an identifier built by concatenation); without it an f-string is an opaque value (messages)
-            h = self.hooks.get("fstring")
+            # hook "fstring" / "joined_str" (eng, st, node, values of the formatted sub-expressions in order) may give the string a
+            # meaning (e.g. an identifier built by concatenation); without it an f-string is an opaque value (messages)
+            h = self.hooks.get("fstring") or self.hooks.get("joined_str")
             if h:
                 r = h(self, s, node, vs)
                 if r is not None:
